@@ -1,8 +1,9 @@
 //! Scenario registry of the porcelain harness (properties that need gix-protocol / gix-transport / gix itself).
 use gixsim_rt::driver::Scenario;
 
+pub mod fetch;
 pub mod transport;
 
 pub fn all() -> Vec<&'static dyn Scenario> {
-    vec![&transport::Transport]
+    vec![&transport::Transport, &fetch::Fetch]
 }
